@@ -244,7 +244,7 @@ func canon(v any) string {
 	case int:
 		return "int(" + strconv.Itoa(x) + ")"
 	case float64:
-		return "f64(" + strconv.FormatFloat(x, 'g', -1, 64) + ")"
+		return "f64(" + strconv.FormatFloat(x, 'f', -1, 64) + ")"
 	case string:
 		return "str(" + x + ")"
 	case bool:
